@@ -113,6 +113,24 @@ def handleC07 (toks : List String) : String :=
           hiloS (hiLoOf o.wrapped.box) ++ " " ++ " ".intercalate (o.wrapped.pos.map v3s) ++ " " ++
           " ".intercalate (o.wrapped.flags.map fun f => showInts [f.x, f.y, f.z])
       | .error e => err e
+  | "resolve" :: rest =>
+    -- resolve <units|-> <style|-> <natypes|-> <0 | 1 units style natypes> <system natypes>
+    run (do
+      let ua ← tok; let sa ← tok; let na ← tok
+      let hasPot ← pBool
+      let pot ← if hasPot then do
+          let u ← pStr; let st ← pStr; let n ← pNat
+          pure (some ({ units := u, atomStyle := st, natypes := n } : PotArgs))
+        else pure none
+      let sn ← pNat
+      let nat : Option Nat ← if na = "-" then pure none else match na.toNat? with
+        | some n => pure (some n)
+        | none => failure
+      pure ((if ua = "-" then none else some (ua.replace "+" " ")),
+            (if sa = "-" then none else some (sa.replace "+" " ")), nat, pot, sn)) rest
+      fun (ua, sa, na, pot, sn) =>
+        let r := resolveArgs ua sa na pot sn
+        "ok " ++ r.1.replace " " "+" ++ " " ++ r.2.1.replace " " "+" ++ " " ++ toString r.2.2
   | "pdata" :: rest =>
     run (do let style ← pStr; let eps ← pRat; let t ← pHex; pure (style, eps, t)) rest fun (style, eps, t) =>
       match parseData t style with
